@@ -220,6 +220,27 @@ def _mdp_case(case, rng):
     seed = rng.randrange(2 ** 31)
     captured = []
 
+    if kind == "functional" and rng.random() < 0.4:
+        # a policy SUBCLASS that overrides the public run_on (a receding-horizon policy: never more than 2 steps per roll-out,
+        # and it keeps what it did): evaluate_on reports on THIS policy's roll-outs
+        own = []
+
+        class TwoSteps(FunctionalPolicy):
+            def run_on(self_, mdp_, initial_state=None, max_steps=2 ** 30, rng=_random):
+                out_ = FunctionalPolicy.run_on(self_, mdp_, initial_state=initial_state, max_steps=min(max_steps, 2), rng=rng)
+                own.append(out_)
+                return out_
+        tp_ = TwoSteps(lambda s: DictDistribution(pol[s]))
+        r_ = case.call("Policy.evaluate_on(subclass overriding run_on)", tp_.evaluate_on, mdp, n_simulations=3, max_steps=6,
+                       rng=_random.Random(seed + 1))
+        case.count("evaluations_of_policies_overriding_run_on")
+        if r_ is not case.FAIL:
+            ok_ = len(own) == 3 and all(len(list(o_.steps)) - 1 <= 2 for o_ in own)
+            want_ = sum(_returns(list(o_.reward), gamma)[0] for o_ in own) / max(1, len(own)) if own else None
+            case.check(ok_ and want_ is not None and abs(float(r_.initial_value) - want_) <= 1e-10 * max(1.0, abs(want_)),
+                       "evaluate_on:does-not-average-the-policy's-own-roll-outs",
+                       lambda: f"{len(own)} own roll-outs recorded (3 simulations asked for); initial_value {float(r_.initial_value)!r} vs mean of own {want_!r}")
+
     def after(args, kwargs, out, exc):
         if exc is None:
             captured.append(out)
